@@ -171,4 +171,75 @@ theorem Pool.get_spec {p p' : Pool} {v : View} {n : Nat} (h : p.get n = .ok (v, 
         · left; simp; omega
         · right; left; simp; omega
 
+/-! ### any sequence of `Get` calls -/
+
+/-- a sequence of `Get(n₁), Get(n₂), …` on one pool -/
+def getMany : Pool → List Nat → Except String (List View × Pool)
+  | p, [] => .ok ([], p)
+  | p, n :: ns =>
+    match p.get n with
+    | .error e => .error e
+    | .ok (v, p') =>
+      match getMany p' ns with
+      | .error e => .error e
+      | .ok (vs, p'') => .ok (v :: vs, p'')
+
+theorem getMany_spec : ∀ (ns : List Nat) (p : Pool), p.WF → ∀ vs p', getMany p ns = .ok (vs, p') →
+    p'.WF ∧ p'.size = p.size ∧ (∀ w, p.Behind w → p'.Behind w) ∧ (∀ v ∈ vs, p'.Behind v) ∧
+    (∀ w, p.Behind w → ∀ v ∈ vs, w.Disjoint v) ∧ vs.Pairwise View.Disjoint ∧ vs.map (·.len) = ns := by
+  intro ns
+  induction ns with
+  | nil =>
+    intro p hw vs p' h
+    simp only [getMany] at h; cases h
+    exact ⟨hw, rfl, fun _ h => h, by simp, by simp, by simp, rfl⟩
+  | cons n ns ih =>
+    intro p hw vs p' h
+    simp only [getMany] at h
+    cases hg : p.get n with
+    | error e => rw [hg] at h; cases h
+    | ok r =>
+      obtain ⟨v, p1⟩ := r
+      rw [hg] at h
+      simp only [] at h
+      cases hm : getMany p1 ns with
+      | error e => rw [hm] at h; cases h
+      | ok r2 =>
+        obtain ⟨vs1, p2⟩ := r2
+        rw [hm] at h
+        simp only [Except.ok.injEq, Prod.mk.injEq] at h
+        obtain ⟨rfl, rfl⟩ := h
+        obtain ⟨wf1, sz1, hlen, hbv, hkeep⟩ := Pool.get_spec hg hw
+        obtain ⟨wf2, sz2, hmono, hbeh, hdis, hpw, hlens⟩ := ih p1 wf1 vs1 p2 hm
+        refine ⟨wf2, sz2.trans sz1, fun w hb => hmono w (hkeep w hb).1, ?_, ?_, ?_, by simp [hlen, hlens]⟩
+        · intro x hx
+          simp only [List.mem_cons] at hx
+          rcases hx with rfl | hx
+          · exact hmono _ hbv
+          · exact hbeh x hx
+        · intro w hb x hx
+          simp only [List.mem_cons] at hx
+          rcases hx with rfl | hx
+          · exact (hkeep w hb).2.1
+          · exact hdis w (hkeep w hb).1 x hx
+        · exact List.pairwise_cons.mpr ⟨fun x hx => hdis v hbv x hx, hpw⟩
+
+theorem getMany_succeeds : ∀ (ns : List Nat) (p : Pool), (∀ n ∈ ns, n ≤ p.size) →
+    ∃ vs p', getMany p ns = .ok (vs, p') ∧ p'.size = p.size := by
+  intro ns
+  induction ns with
+  | nil => intro p _; exact ⟨[], p, rfl, rfl⟩
+  | cons n ns ih =>
+    intro p hn
+    have hle : n ≤ p.size := hn n (by simp)
+    have : ∃ v p1, p.get n = .ok (v, p1) ∧ p1.size = p.size := by
+      unfold Pool.get
+      split
+      · have : ¬ n > p.size := by omega
+        simp only [this, if_false]; exact ⟨_, _, rfl, rfl⟩
+      · exact ⟨_, _, rfl, rfl⟩
+    obtain ⟨v, p1, hg, hs⟩ := this
+    obtain ⟨vs, p2, hm, hs2⟩ := ih p1 (fun m hm => by rw [hs]; exact hn m (by simp [hm]))
+    exact ⟨v :: vs, p2, by simp [getMany, hg, hm], hs2.trans hs⟩
+
 end Rare.C12
